@@ -21,6 +21,9 @@ pub struct Sc {
     pub mindepth: Option<usize>,
     pub maxdepth: Option<usize>,
     pub tests: Vec<String>,
+    /// `-delete` is followed by `-o -quit`: the first removal that fails ends the walk
+    #[serde(default)]
+    pub quit_on_failure: bool,
 }
 
 const DMARK: &[u8] = b"\x01D\n";
@@ -68,18 +71,30 @@ impl Sc {
         let mut a = self.common();
         a.extend(self.tests.iter().cloned());
         a.push("-print0".into());
+        if self.quit_on_failure {
+            a.push("(".into());
+        }
         a.push("-delete".into());
         a.push("-printf".into());
         a.push("\\001D\\n".into());
+        if self.quit_on_failure {
+            a.extend(["-o", "-quit", ")"].iter().map(|s| s.to_string()));
+        }
         a
     }
 }
 
 pub struct C10;
 
+/// The path a printed (lossy) relative path has on disk.
+fn real_path(root: &std::path::Path, raw: Option<u8>, rel: &str) -> std::path::PathBuf {
+    use std::os::unix::ffi::OsStringExt;
+    root.join(std::ffi::OsString::from_vec(tree::unlossy(raw, rel.as_bytes())))
+}
+
 /// The statement's rule, applied with plain system calls.
-fn ref_delete(root: &std::path::Path, rel: &str) -> bool {
-    let p = root.join(rel);
+fn ref_delete(root: &std::path::Path, raw: Option<u8>, rel: &str) -> bool {
+    let p = real_path(root, raw, rel);
     match fs::symlink_metadata(&p) {
         Ok(m) if m.is_dir() => fs::remove_dir(&p).is_ok(),
         Ok(_) => fs::remove_file(&p).is_ok(),
@@ -103,6 +118,8 @@ impl Property for C10 {
             _ => Some("-L".to_string()),
         };
         let follows_inside = follow_flag.as_deref() == Some("-L");
+        // names that are not valid UTF-8 (then no racing mutator: its paths are strings)
+        let raw_byte = if rng.chance(1, 5) { Some(*rng.pick(&[0xffu8, 0xe9, 0xc3, 0x80])) } else { None };
         let nroots = rng.small(1, 3);
         let roots: Vec<String> = ["t", "u", "v"][..nroots].iter().map(|s| s.to_string()).collect();
         let cfg = TreeCfg {
@@ -114,7 +131,7 @@ impl Property for C10 {
             allow_loops: false,
             outside: true,
             fifo: rng.chance(1, 10),
-            raw_byte: None,
+            raw_byte,
         };
         let mut spec = gen_tree(rng, &cfg);
         if follows_inside {
@@ -160,7 +177,7 @@ impl Property for C10 {
         }
         // failing removals
         let mut mutations = vec![];
-        match rng.weighted(&[50, 25, 25]) {
+        match rng.weighted(&[50, 25, if raw_byte.is_some() { 0 } else { 25 }]) {
             1 => {
                 // EACCES: the parent does not allow removal
                 let dirs: Vec<String> = dirs_of(&spec).into_iter().filter(|d| !d.starts_with("out")).collect();
@@ -204,6 +221,7 @@ impl Property for C10 {
             mindepth: if rng.chance(1, 4) { Some(rng.urange(0, 3)) } else { None },
             maxdepth: if rng.chance(1, 5) { Some(rng.urange(0, 4)) } else { None },
             tests,
+            quit_on_failure: rng.chance(1, 6),
         }
     }
 
@@ -317,7 +335,7 @@ impl Property for C10 {
         // oracle does not apply to such scenarios.
         if sc.follow() != FollowMode::P {
             let id_of = |p: &str| -> std::path::PathBuf {
-                let full = a.join(p.trim_end_matches('/'));
+                let full = real_path(&a, spec.raw_byte, p.trim_end_matches('/'));
                 match (full.parent().and_then(|d| fs::canonicalize(d).ok()), full.file_name()) {
                     (Some(d), Some(n)) => d.join(n),
                     _ => full.clone(),
@@ -335,11 +353,18 @@ impl Property for C10 {
                 if interfering {
                     break;
                 }
-                let Ok(t) = fs::canonicalize(a.join(l)) else { continue };
-                if !fs::symlink_metadata(a.join(l)).map(|m| m.file_type().is_symlink()).unwrap_or(false) {
+                // `l` is a specified path: its bytes on disk, and the way find prints it
+                let disk = tree::disk_bytes(spec.raw_byte, l);
+                let lp = {
+                    use std::os::unix::ffi::OsStringExt;
+                    a.join(std::ffi::OsString::from_vec(disk.clone()))
+                };
+                let shown = String::from_utf8_lossy(&disk).into_owned();
+                let Ok(t) = fs::canonicalize(&lp) else { continue };
+                if !fs::symlink_metadata(&lp).map(|m| m.file_type().is_symlink()).unwrap_or(false) {
                     continue;
                 }
-                let l_shown: Vec<String> = vec![l.clone(), format!("./{l}")];
+                let l_shown: Vec<String> = vec![shown.clone(), format!("./{shown}")];
                 for (p, id) in pass1.iter().zip(&ids) {
                     let through_l = l_shown.iter().any(|ls| p == ls || p.starts_with(&format!("{ls}/")));
                     if !through_l && (id == &t || id.starts_with(&t)) {
@@ -414,7 +439,10 @@ impl Property for C10 {
                     };
                 }
             }
-            ref_ok.push(ref_delete(&b, p));
+            ref_ok.push(ref_delete(&b, spec.raw_byte, p));
+            if sc.quit_on_failure && !*ref_ok.last().unwrap() {
+                break;
+            }
         }
         for ok in &ref_ok {
             rep.trace.byte(if *ok { 21 } else { 22 });
@@ -435,7 +463,17 @@ impl Property for C10 {
         }
         // (a) same entries, same order as -depth EXPR -print
         let names2: Vec<&String> = pass2.iter().map(|x| &x.0).collect();
-        let names1: Vec<&String> = pass1.iter().collect();
+        // with `-o -quit` the walk ends at the first removal that fails
+        let names1: Vec<&String> = pass1.iter().take(ref_ok.len()).collect();
+        if sc.quit_on_failure {
+            rep.probe("quit_after_failed_removal_in_expression");
+            if failures > 0 {
+                rep.probe("walk_ended_by_quit_after_a_failed_removal");
+            }
+        }
+        if spec.raw_byte.is_some() && pass1.iter().any(|p| p.contains('\u{fffd}')) {
+            rep.probe("file_name_not_valid_utf8");
+        }
         if names2 != names1 {
             let first = names1.iter().zip(&names2).position(|(x, y)| x != y).unwrap_or(names1.len().min(names2.len()));
             let class = if names2.len() < names1.len() && names1.starts_with(&names2) {
@@ -552,6 +590,11 @@ impl Property for C10 {
         if sc.maxdepth.is_some() {
             let mut s = sc.clone();
             s.maxdepth = None;
+            out.push(s);
+        }
+        if sc.quit_on_failure {
+            let mut s = sc.clone();
+            s.quit_on_failure = false;
             out.push(s);
         }
         if sc.follow_flag.is_some() {
